@@ -136,7 +136,9 @@ def fam6():
 XS = ["C(a,b)", "k+C(a,b)", "k+ C(a,b)", "C(a,b)+k", "C(a, b) +k", "I(a)I(b)", "I( a )", "C(a,b)C(c,d)", "k C( a , b )", "(C(a,b))", "I()+I()", "-I(-1)", "I(I(k)+k)",
       "C(,b)", "C(a,)", "C(,)+k", "k+A", "k +A", "A+k", "(A)", "A A", "-A", "I(A)", "I(+A)", "I(A+)", "C(A,A)", "E+k", "k+E+k", "k E k", "I(E)+k", "P(a)", "+P(a)", "P( a )+k",
       "k+G", "G+k", "I(G)(1)", "k+G(1)", "G (1) +k", "V(a,b)", "k+V( a , b )", "V()+k", "T(a)", "k+T(a)",
-      "D(a,b)", "D( a,b)", "k+D( a , b )", "D(,b)", "D( a,)", "D(I( a ),b)"]
+      "D(a,b)", "D( a,b)", "k+D( a , b )", "D(,b)", "D( a,)", "D(I( a ),b)",
+      # multi-token operands next to an empty one
+      "D(,b c)", "C(,b c)", "D(a b,)", "C(a b,)+k", "D( a b , c d )", "D(, b c)"]
 
 
 def fam7():
